@@ -436,4 +436,4 @@ REQUIRED_OUTCOMES = ("refused", "written", "chunked:eof", "plain:eof", "payload:
 def bounds(tier):
     return {"strings": "status reason / header name / header value: 1..3 (quick), 1..5 (thorough) fully symbolic characters over ASCII + Latin-1 + surrogate escapes + 8 non-BMP/BMP representatives",
             "write_scripts": "2..3 calls (quick) / 2..4 after write_headers, ops {write 1-2 symbolic bytes, write(b''), write_eof 0-2 bytes, set_eof, send_headers}, chunked flag, optional declared length 0..k*2+1, headers buffered or sent first",
-            "lemmas": "unbounded (all strings / all code points)"}
+            "payloads": "BytesPayload, StringPayload, BytesIOPayload, BufferedReaderPayload (real file), TextIOPayload (real text file), StringIO, AsyncIterablePayload, JsonPayload with 0..2 (quick) / 0..3 characters from {a, LF, e-acute, euro sign}, start offset, encoding utf-8/latin-1, content_length in {None,0,1,2,3,4,5,7,100}: write() emits the content, write_with_length(n) its first n bytes, size == bytes written", "lemmas": "unbounded (all strings / all code points)"}
